@@ -130,6 +130,14 @@ def tab3(units, R, switches=('print_value', 'cJSON_Compare')):
                        for s_ in srcs for x_ in walk(s_)):
                 raise AnalysisBroken('TAB3: %s: the switch of %s runs over %s, which is neither the masked type word nor the result of a '
                                      'helper applied to it' % (fn.where(s), fname, expr_str(cond)[:40]))
+        if masked and not (need <= labels):
+            # kinds without an arm may have been dealt with in front of the switch by a helper that is handed the masked type word
+            # (a table of the comparable types): what that helper answers is not evaluated here
+            pre = [c_ for c_ in fn.calls() if callee_name(c_) in u.functions and u.functions[callee_name(c_)].static and
+                   any(is_masked(a_) for a_ in c_['args'])]
+            if pre:
+                raise AnalysisBroken('TAB3: %s: the switch of %s has no arm for kinds %s; %s is handed the masked type word in front of it, '
+                                     'what it decides is not evaluated by this rule' % (fn.where(s), fname, sorted(need - labels), callee_name(pre[0])))
         R.ob('TAB3', fn, s, '%s: switch %s on the masked kind' % (fname, label), masked and need <= labels,
              'cases %s, mask %s' % (sorted(labels), masked), key='switch:' + fname)
         dflt = [d for d in walk(s['body']) if d.get('k') == 'default']
